@@ -486,9 +486,32 @@ def class_tokens(f, stmts):
     return toks
 
 
+def forwarded_members(f, stmts, depth=0):
+    """names of the member functions invoked on the wrapped object (an expression rooted at a static_cast of
+    `handle`) in these statements, following helper members of the same wrapper one level deep"""
+    u = f.unit
+    out = set()
+    for s in stmts:
+        for x in walk(s):
+            if x['k'] != 'call':
+                continue
+            obj = x.get('obj')
+            if obj is not None and any(y['k'] == 'cast' and y.get('ck') == 'static' for y in walk(obj)):
+                out.add(x.get('m') or x.get('op') or '?')
+            elif any(y['k'] == 'cast' and y.get('ck') == 'static' for a in x.get('a', []) for y in walk(a)) and x.get('f'):
+                # free function applied to the wrapped object: backend::bytes(*obj), os << *obj
+                out.add(x['f'].split('::')[-1])
+            elif 'fd' in x and depth < 1:
+                g = u.by_id.get(x['fd'])
+                if g is not None and g.cls == f.cls and g is not f:
+                    out |= forwarded_members(g, [g.body], depth + 1)
+    return frozenset(out)
+
+
 def rule_C(ck, units):
     ck.rule('C.dispatch-cover', 'every switch over a run-time tag handles every enumerator, or has a default that throws (value-returning dispatchers need a throwing default; destructors must cover every enumerator)', FLOORS[ck.tier]['Ccov'])
     ck.rule('C.dispatch-class', 'case e names the class of that name (or its documented alias) - the same one in every member of the wrapper', FLOORS[ck.tier]['Ccls'])
+    ck.rule('C.dispatch-forward', 'sibling agreement: in one switch every case forwards to the same member of the wrapped object, and that member bears the name of the wrapper member', 60)
     ck.rule('C.dispatch-prm', 'the wrapped object is constructed from the same property tree with only the tag key erased', 7)
     inst = {(f.file, f.line) for u in units.values() for f in u.funcs if f.cls and not f.j.get('dep')}
     for u in units.values():
@@ -505,7 +528,8 @@ def rule_C(ck, units):
                 tag = None
                 if c['k'] == 'mem':
                     tag = c['n']
-                    tt = strip_targs(u.type(u.decls[c['d']].get('t')))
+                    tt = strip_targs(u.type(u.decls[c['d']].get('ct') if u.decls[c['d']].get('ct') is not None else u.decls[c['d']].get('t')))
+                    tt = tt.replace('const ', '').strip()
                 else:
                     continue
                 eq = tt if tt in enums else ('amgcl::' + tt if 'amgcl::' + tt in enums else None)
@@ -554,6 +578,26 @@ def rule_C(ck, units):
                         elif foreign:
                             det = 'case %s names the class of enumerator %s' % (lab, foreign[0])
                         ck.ob('C.dispatch-class', '%s|%s' % (key, lab), f.where(stmts[0]) if stmts else f.where(sw), ok, det, trivial=not stmts)
+                if not f.j.get('ctor') and not f.j.get('dtor'):
+                    # sibling agreement: every case forwards to the same member(s) of the wrapped object
+                    per_case = {}
+                    for labs, stmts in groups:
+                        if '<default>' in labs:
+                            continue
+                        per_case[labs[0]] = forwarded_members(f, stmts)
+                    sets = list(per_case.values())
+                    if sets:
+                        # majority set is the reference
+                        ref = max(sets, key=lambda x: sum(1 for y in sets if y == x))
+                        for lab, ms in per_case.items():
+                            ok = ms == ref
+                            ck.ob('C.dispatch-forward', '%s|%s' % (key, lab), f.where(sw), ok,
+                                  '' if ok else 'case %s forwards to %s of the wrapped object while its siblings forward to %s' % (lab, sorted(ms) or 'nothing', sorted(ref)),
+                                  trivial=not ref)
+                        mname2 = f.q.split('::')[-1]
+                        if mname2 not in ('bytes', 'operator<<') and ref and mname2 not in ref and not (mname2 == 'operator()' and 'operator()' in ref):
+                            helper_ok = any(mname2 in r for r in ref)
+                            ck.ob('C.dispatch-forward', '%s|<name>' % key, f.where(sw), helper_ok, '' if helper_ok else 'wrapper member %s forwards to %s' % (mname2, sorted(ref)))
                 if f.j.get('ctor'):
                     # prm param: the ptree parameter; erase(tag key) present; new/call passes prm
                     pd = ptree_param(f)
@@ -569,6 +613,84 @@ def rule_C(ck, units):
                             bad = labs[0]
                     ok = len(erased) == 1 and passes
                     ck.ob('C.dispatch-prm', f.cls, f.where(), ok, '' if ok else ('keys erased: %s' % erased if len(erased) != 1 else 'case %s does not pass the property tree to the wrapped constructor' % bad))
+
+
+# ----------------------------------------------------- E: unknown-key reporting
+def rule_E(ck, units):
+    ck.rule('E.unknown-reported', 'in every check_params overload each entry of the tree reaches AMGCL_PARAM_UNKNOWN under no condition other than the name being absent from the accepted sets', 2)
+    done = set()
+    for u in units.values():
+        for f in u.funcs:
+            if f.q != 'amgcl::check_params' or f.line in done:
+                continue
+            done.add(f.line)
+            key = 'amgcl::check_params/%d' % len(f.params)
+            # the unknown-parameter action: the statement that mentions the tree entry's key (v.first) outside a condition,
+            # inside the loop over the tree parameter
+            pd = f.params[0]
+            loops = [n for n in f.nodes.values() if n['k'] == 'rfor' and is_ref_to(n['range'], pd)]
+            if len(loops) != 1:
+                ck.ob('E.unknown-reported', key, f.where(), False, 'expected exactly one loop over the property tree, found %d' % len(loops))
+                continue
+            loop = loops[0]
+            lv = loop['var']['d']
+            # enclosing if-conditions of every statement in the loop body that uses v.first as an operand of an action
+            conds = []
+            action = None
+
+            def visit(n, stack):
+                nonlocal action
+                if n['k'] == 'if':
+                    visit_expr_uses(n['c'])
+                    if n.get('t') is not None:
+                        visit(n['t'], stack + [(n['c'], True)])
+                    if n.get('e') is not None:
+                        visit(n['e'], stack + [(n['c'], False)])
+                    return
+                if n['k'] in ('block',):
+                    for c in n['s']:
+                        visit(c, stack)
+                    return
+                # a non-control statement: is it an action on the entry?
+                if any(x['k'] == 'ref' and x['d'] == lv for x in walk(n)):
+                    action = (n, list(stack))
+
+            def visit_expr_uses(e):
+                pass
+            visit(loop['b'], [])
+            if action is None:
+                ck.ob('E.unknown-reported', key, f.where(loop), False, 'the loop over the tree has no action that reports the entry')
+                continue
+            n, stack = action
+            bad = []
+            names = [f.params[i] for i in range(1, len(f.params))]
+            seen_sets = set()
+            for c, pol in stack:
+                # allowed: conjunction of !S.count(v.first) (or S.find(v.first) == S.end()) over the accepted-name sets
+                for leaf in conj_leaves(c):
+                    l = unwrap(leaf)
+                    neg = False
+                    while l['k'] == 'un' and l['op'] == '!':
+                        neg = not neg
+                        l = unwrap(l['e'])
+                    okleaf = False
+                    if l['k'] == 'call' and l.get('m') in ('count', 'contains') and l.get('obj') is not None and unwrap(l['obj'])['k'] == 'ref' and unwrap(l['obj'])['d'] in names:
+                        if any(x['k'] == 'ref' and x['d'] == lv for x in walk(l['a'][0])) and neg and pol:
+                            okleaf = True
+                            seen_sets.add(unwrap(l['obj'])['d'])
+                    if not okleaf:
+                        bad.append(show(leaf))
+            missing = [f.decl(d)['n'] for d in names if d not in seen_sets]
+            ok = not bad and not missing
+            ck.ob('E.unknown-reported', key, f.where(n), ok, '' if ok else (
+                'the unknown-key report is additionally guarded by `%s`: some unknown keys are silently dropped' % bad[0] if bad else 'accepted-name set(s) %s are not consulted' % missing))
+
+
+def conj_leaves(c):
+    c = unwrap(c)
+    if c is not None and c['k'] == 'bin' and c['op'] == '&&':
+        return conj_leaves(c['x']) + conj_leaves(c['y'])
+    return [c]
 
 
 # ------------------------------------------------------------- D: witnesses
@@ -625,6 +747,7 @@ def main(tier):
     rule_A(ck, facts)
     rule_B(ck, enum_tables(units))
     rule_C(ck, units)
+    rule_E(ck, units)
     wit = [(os.path.join(T, 'params_witness.cpp'), False)]
     if os.path.exists(os.path.join(T, 'params_witness_mpi.cpp')):
         wit.append((os.path.join(T, 'params_witness_mpi.cpp'), True))
